@@ -378,6 +378,31 @@ def sec_selfcheck(rep, seed):
     rep.add(Ob("C12/selfcheck/canary-aliasing-refuted-and-replayed", "canary", PROVED if bad else "error", "ratfun+replay", 0, f"shared partons dict: refuted+replayed={len(bad)}"))
 
 
+def sec_dict_targets(rep):
+    """A target given as a mapping is read BY KEY and taken as it is: whatever the order of its entries
+    (a card that went through yaml.dump lists A before Z), integer or float entries, per-nucleon
+    fractions with A = 1 -- through compatibility.update_target and through Runner.__init__ into the
+    configuration the isospin rotation reads."""
+    from yadism import runner as rmod
+    from yadism.input import compatibility as comp
+
+    rep.under_contract(rmod.Runner.__init__)
+    cases = [{"Z": 26, "A": 56}, {"A": 56, "Z": 26}, {"A": 208.0, "Z": 82.0}, {"Z": 0.5, "A": 1}, {"A": 1.0, "Z": 23.403 / 49.618}, {"Z": 0, "A": 1}, {"A": 1, "Z": 1}, {"Z": 0.0, "A": 2.0}, {"A": 7, "Z": 3.0}]
+    for t in cases:
+        rep.cases += 1
+        try:
+            ob = H.base_obs(TargetDIS=dict(t))
+            comp.update_target(ob)
+            kept = isinstance(ob["TargetDIS"], dict) and ob["TargetDIS"].get("Z") == t["Z"] and ob["TargetDIS"].get("A") == t["A"] and set(ob["TargetDIS"]) == {"Z", "A"}
+            r = rmod.Runner(H.base_theory(PTO=0, PTODIS=0), H.base_obs(TargetDIS=dict(t)))
+            tg = r.configs.target
+            wired = tg["Z"] == t["Z"] and tg["A"] == t["A"]
+            ok, detail = kept and wired, f"update_target -> {ob['TargetDIS']!r}; Runner.configs.target -> {dict(tg)!r}"
+        except Exception as e:  # noqa
+            ok, detail = False, f"{type(e).__name__}: {e}"
+        rep.add(ob_eval(f"C12/dict target {t!r}: read by key, taken as it is (update_target, Runner.__init__)", ok, detail=detail, inputs={} if ok else {"TargetDIS": repr(t), "observed": detail}, replay={"confirmed": True, "python": f"Runner(theory, observables with TargetDIS={t!r}).configs.target"}))
+
+
 def sec_real_runs(rep, tier):
     """BOUNDED companions on real runs: the operator of a (Z, A) target is the proton operator with
     the u/d (ubar/dbar) rows mixed, per entry; named targets through the card."""
@@ -418,7 +443,7 @@ def run(rep, tier, seed, only=None):
         "the contraction lemma is stated per kernel with uninterpreted parton values f(pid); linearity of apply_pdf (C17) lifts it to operators",
     )
     rep.stub("CouplingConstants -> WStub", "eko nf_default -> enumerated nf")
-    for nm, f in (("apply_isospin", sec_apply_isospin), ("numbertypes", sec_apply_isospin_number_types), ("nativeshapes", sec_apply_isospin_native_shapes), ("lattice", lambda r: sec_lattice(r, tier)), ("collect_elems", sec_collect_elems), ("update_target", sec_update_target), ("realruns", lambda r: sec_real_runs(r, tier))):
+    for nm, f in (("apply_isospin", sec_apply_isospin), ("numbertypes", sec_apply_isospin_number_types), ("nativeshapes", sec_apply_isospin_native_shapes), ("lattice", lambda r: sec_lattice(r, tier)), ("collect_elems", sec_collect_elems), ("update_target", sec_update_target), ("dicttargets", sec_dict_targets), ("realruns", lambda r: sec_real_runs(r, tier))):
         if only and only not in nm:
             continue
         rep.add(guarded(f"C12/{nm}", lambda f=f: (f(rep), [])[1]))
